@@ -161,7 +161,7 @@ def run_script_case(case, root):
     d = fn_dir + "/compl_%d" % comp
     os.makedirs(d, exist_ok=True)
     with open(d + "/previous_eqns_%d.txt" % comp, "w") as f:
-        f.write("x\n")
+        f.write("cos(x)\n")
         if case["in_prev"]:
             f.write(fcn)
         f.write("inv(x)\n")
